@@ -1703,4 +1703,674 @@ theorem extractIf_spec (hc : CfgOk cfg) (env : Env) (k : Nat) (w : World) (h : T
   | .abort, hpost => exact hpost
   | .fault _, hpost => exact hpost
 
+/-! ### 8. `clone` / `clone_from` -/
+
+/-- The clones of `l` made with clone-oracle calls `cc, cc+1, …` (same key and payload, fresh
+    identities); stops at the first panicking `Clone`. -/
+def cloneList (env : Env) : Nat → List Elem → List Elem
+  | _, [] => []
+  | cc, e :: es =>
+    match env.clone cc e with
+    | some (kid, vid) => { e with kid := kid, vid := vid } :: cloneList env (cc + 1) es
+    | none => []
+
+/-- `dst'` is `dst` with the slots in `L` filled (control bytes and counters untouched). -/
+structure FilledOn (dst dst' : Raw) (L : List Nat) : Prop where
+  mask : dst'.mask = dst.mask
+  ctrl : dst'.ctrl = dst.ctrl
+  items : dst'.items = dst.items
+  gl : dst'.gl = dst.gl
+  alloc : dst'.alloc = dst.alloc
+  size : dst'.slots.size = dst.slots.size
+  other : ∀ j, j ∉ L → ab_slot dst' j = ab_slot dst j
+  filled : ∀ j, j ∈ L → ab_slot dst' j = some (ab_elem dst' j)
+
+theorem ab_slot_none_get {t : Raw} {i : Nat} (hi : i < t.slots.size) (h : ab_slot t i = none) :
+    t.slots[i]? = some none := by
+  unfold ab_slot at h
+  rw [Array.getElem?_eq_getElem hi] at h ⊢
+  simp only [Option.join_some] at h
+  rw [h]
+
+theorem cloneLoop_step_some {env : Env} {src dst : Raw} {w : World} {i : Nat} {rest : List Nat}
+    {e : Elem} {kid vid : Nat} (he : slotGet src i = .ok e) (hcl : env.clone w.cc e = some (kid, vid))
+    (hs : dst.slots[i]? = some none) :
+    Map.cloneLoop env src (i :: rest) dst w =
+      Map.cloneLoop env src rest
+        { dst with slots := dst.slots.setIfInBounds i (some { e with kid := kid, vid := vid }) }
+        { w with cc := w.cc + 1 } := by
+  simp only [Map.cloneLoop, he, hcl, hs]
+
+theorem cloneLoop_step_none {env : Env} {src dst : Raw} {w : World} {i : Nat} {rest : List Nat}
+    {e : Elem} (he : slotGet src i = .ok e) (hcl : env.clone w.cc e = none) :
+    Map.cloneLoop env src (i :: rest) dst w = .panic "clone" { w with cc := w.cc + 1, t := dst } := by
+  simp only [Map.cloneLoop, he, hcl]
+
+theorem cloneLoop_spec (env : Env) (src : Raw) :
+    ∀ (idxs : List Nat) (dst : Raw) (w : World), idxs.Nodup →
+      (∀ i ∈ idxs, ∃ e, ab_slot src i = some e) →
+      (∀ i ∈ idxs, i < dst.slots.size ∧ ab_slot dst i = none) →
+      ∃ n dst', n ≤ idxs.length ∧ FilledOn dst dst' (idxs.take n) ∧
+        (idxs.take n).map (ab_elem dst') = cloneList env w.cc (idxs.map (ab_elem src)) ∧
+        ((n = idxs.length ∧ Map.cloneLoop env src idxs dst w = .ok (dst', { w with cc := w.cc + n })) ∨
+         (n < idxs.length ∧ (∃ i, idxs[n]? = some i ∧ env.clone (w.cc + n) (ab_elem src i) = none) ∧
+           Map.cloneLoop env src idxs dst w =
+             .panic "clone" { w with cc := w.cc + n + 1, t := dst' })) := by
+  intro idxs
+  induction idxs with
+  | nil =>
+    intro dst w _ _ _
+    exact ⟨0, dst, Nat.le_refl _, ⟨rfl, rfl, rfl, rfl, rfl, rfl, fun _ _ => rfl, fun _ hj => by cases hj⟩,
+      rfl, Or.inl ⟨rfl, rfl⟩⟩
+  | cons i rest ih =>
+    intro dst w hnd hsrc hdst
+    obtain ⟨e, he⟩ := hsrc i List.mem_cons_self
+    have hei := ab_elem_of he
+    have hget := ab_slotGet he
+    obtain ⟨hisz, hinone⟩ := hdst i List.mem_cons_self
+    have hnd' := List.nodup_cons.mp hnd
+    cases hcl : env.clone w.cc e with
+    | none =>
+      refine ⟨0, dst, Nat.zero_le _,
+        ⟨rfl, rfl, rfl, rfl, rfl, rfl, fun _ _ => rfl, fun _ hj => by simp at hj⟩, ?_,
+        Or.inr ⟨by simp, ⟨i, by simp, by rw [hei]; simpa using hcl⟩, ?_⟩⟩
+      · simp [cloneList, hei, hcl]
+      · rw [cloneLoop_step_none hget hcl]
+    | some ids =>
+      obtain ⟨kid, vid⟩ := ids
+      have hs := ab_slot_none_get hisz hinone
+      rw [cloneLoop_step_some hget hcl hs]
+      generalize hC : ({ e with kid := kid, vid := vid } : Elem) = c
+      generalize hd1 : ({ dst with slots := dst.slots.setIfInBounds i (some c) } : Raw) = dst1
+      have hslot1 : ∀ j, ab_slot dst1 j = if i = j ∧ i < dst.slots.size then some c else ab_slot dst j := by
+        intro j
+        rw [ab_slot_set dst.slots dst1 i j (some c) (by rw [← hd1])]
+        rfl
+      have hsz1 : dst1.slots.size = dst.slots.size := by rw [← hd1]; simp
+      have hdst1 : ∀ j ∈ rest, j < dst1.slots.size ∧ ab_slot dst1 j = none := by
+        intro j hj
+        have hne : i ≠ j := fun h => hnd'.1 (h ▸ hj)
+        obtain ⟨a, b⟩ := hdst j (List.mem_cons_of_mem _ hj)
+        refine ⟨by rw [hsz1]; exact a, ?_⟩
+        rw [hslot1, if_neg (fun h => hne h.1)]; exact b
+      obtain ⟨n, dst', hn, hf, hmap, hres⟩ := ih dst1 { w with cc := w.cc + 1 } hnd'.2
+        (fun j hj => hsrc j (List.mem_cons_of_mem _ hj)) hdst1
+      have hinot : i ∉ rest.take n := fun h => hnd'.1 (List.mem_of_mem_take h)
+      have hsl_i : ab_slot dst' i = some c := by
+        rw [hf.other i hinot, hslot1, if_pos ⟨rfl, hisz⟩]
+      refine ⟨n + 1, dst', by simp; omega, ?_, ?_, ?_⟩
+      · refine ⟨hf.mask.trans (by rw [← hd1]), hf.ctrl.trans (by rw [← hd1]), hf.items.trans (by rw [← hd1]),
+          hf.gl.trans (by rw [← hd1]), hf.alloc.trans (by rw [← hd1]), hf.size.trans hsz1, ?_, ?_⟩
+        · intro j hj
+          simp only [List.take_succ_cons, List.mem_cons, not_or] at hj
+          rw [hf.other j hj.2, hslot1, if_neg (fun h => hj.1 h.1.symm)]
+        · intro j hj
+          simp only [List.take_succ_cons, List.mem_cons] at hj
+          rcases hj with rfl | hj
+          · rw [hsl_i, ab_elem_of hsl_i]
+          · exact hf.filled j hj
+      · simp only [List.take_succ_cons, List.map_cons, cloneList, hei, hcl, hC]
+        rw [ab_elem_of hsl_i, hmap]
+      · rcases hres with ⟨h1, h2⟩ | ⟨h1, ⟨j, hj1, hj2⟩, h3⟩
+        · refine Or.inl ⟨by simp [h1], ?_⟩
+          rw [h2]
+          simp only [Nat.add_assoc, Nat.add_comm 1 n]
+        · refine Or.inr ⟨by simp; omega, ⟨j, by simpa using hj1, ?_⟩, ?_⟩
+          · rw [← hj2]; congr 1; simp only; omega
+          · rw [h3]
+            simp only [Nat.add_assoc, Nat.add_comm 1 n]
+
+theorem ab_dropElemQuiet (w : World) (e : Elem) :
+    (w.dropElemQuiet cfg e).t = w.t ∧ DropsRel cfg w (w.dropElemQuiet cfg e) [e] := by
+  unfold World.dropElemQuiet DropsRel dropEvs
+  cases cfg.needsDrop <;> simp
+
+theorem ab_guard_fold (l : List (Option Elem)) : ∀ (w : World),
+    (l.foldl (fun w s => match s with | some e => w.dropElemQuiet cfg e | none => w) w).t = w.t ∧
+    DropsRel cfg w (l.foldl (fun w s => match s with | some e => w.dropElemQuiet cfg e | none => w) w)
+      (l.filterMap id).reverse := by
+  induction l with
+  | nil => intro w; exact ⟨rfl, DropsRel.refl w w.t⟩
+  | cons a l ih =>
+    intro w
+    cases a with
+    | none => simpa using ih w
+    | some e =>
+      obtain ⟨q1, q2⟩ := ab_dropElemQuiet (cfg := cfg) w e
+      obtain ⟨i1, i2⟩ := ih (w.dropElemQuiet cfg e)
+      refine ⟨by simpa using i1.trans q1, ?_⟩
+      have := q2.trans i2
+      simpa using this
+
+/-- The guard of `clone_from_impl` drops every live slot of `dst` exactly once, in bucket order. -/
+theorem cloneGuardDrop_spec (dst : Raw) (w : World) :
+    (Map.cloneGuardDrop cfg dst w).t = w.t ∧
+    DropsRel cfg w (Map.cloneGuardDrop cfg dst w) dst.elems.reverse := by
+  unfold Map.cloneGuardDrop Raw.elems
+  rw [← Array.foldl_toList]
+  exact ab_guard_fold dst.slots.toList w
+
+/-- Contents of a table being filled by `cloneLoop`: empty except for the first `n` full buckets. -/
+theorem ab_elems_filled {src dst dst' : Raw} {n : Nat} (hf : FilledOn dst dst' (src.fullList.take n))
+    (hm : dst.mask = src.mask) (hct : dst.ctrl = src.ctrl) (hsz : dst.slots.size ≤ dst.buckets)
+    (hnone : ∀ j, ab_slot dst j = none) :
+    dst'.elems = (src.fullList.take n).map (ab_elem dst') := by
+  have hfl : dst'.fullList = src.fullList := ab_fullList_congr (hf.mask.trans hm) (hf.ctrl.trans hct)
+  have hb : dst'.buckets = dst.buckets := by simp only [Raw.buckets, hf.mask]
+  rw [ab_elems_of dst' (by rw [hf.size, hb]; exact hsz), hfl]
+  · conv => lhs; rw [← List.take_append_drop n src.fullList]
+    rw [List.filterMap_append]
+    have hnd := ab_nodup_fullList src
+    rw [← List.take_append_drop n src.fullList] at hnd
+    have hdisj := (List.nodup_append.mp hnd).2.2
+    have h2 : (src.fullList.drop n).filterMap (ab_slot dst') = [] := by
+      rw [List.filterMap_eq_nil_iff]
+      intro j hj
+      have hnot : j ∉ src.fullList.take n := fun hp => hdisj j hp j hj rfl
+      rw [hf.other j hnot]; exact hnone j
+    rw [h2, List.append_nil]
+    exact ab_filterMap_eq_map _ _ _ (fun j hj => hf.filled j hj)
+  · intro j hj hnf
+    have hnot : j ∉ src.fullList.take n := by
+      intro hin
+      have h2 := (mem_fullList dst' j).1 (by rw [hfl]; exact List.mem_of_mem_take hin)
+      rw [h2.2] at hnf; cases hnf
+    rw [hf.other j hnot]; exact hnone j
+
+/-- A table with the control bytes, mask and counters of a valid allocated table and live slots exactly
+    at the full buckets is valid. -/
+theorem ab_inv_of_same_ctrl {t t' : Raw} (h : Inv cfg t) (ha : t.alloc = true) (hm : t'.mask = t.mask)
+    (hct : t'.ctrl = t.ctrl) (hal : t'.alloc = true) (hit : t'.items = t.items) (hgl : t'.gl = t.gl)
+    (hsz : t'.slots.size = t.slots.size)
+    (hlive : ∀ i, i < t'.slots.size → ((ab_slot t' i).isSome ↔ isFull (t'.ctrlAt i) = true)) :
+    Inv cfg t' := by
+  have st := h.struct.transfer ha hct hm hal hsz
+  have hF : t'.countCtrl isFull = t.countCtrl isFull :=
+    countCtrl_congr hm (fun j _ => by rw [ab_ctrlAt_congr hct])
+  have hD : t'.countCtrl (· == DELETED) = t.countCtrl (· == DELETED) :=
+    countCtrl_congr hm (fun j _ => by rw [ab_ctrlAt_congr hct])
+  refine ⟨st.geom, st.valid, st.mirror, by rw [hit, hF]; exact h.items_eq, ?_, hlive, ?_⟩
+  · intro _
+    rw [hgl, hF, hD, hm]; exact h.count ha
+  · intro hlt
+    rw [hD]
+    apply h.smallClean
+    simpa only [Raw.buckets, hm] using hlt
+
+/-- The block `new_uninitialized` + `fill_empty` produces for `b` buckets. -/
+def freshTable (cfg : Cfg) (b : Nat) : Raw :=
+  { mask := b - 1, ctrl := Array.replicate (b + cfg.W) EMPTY, slots := Array.replicate b none,
+    items := 0, gl := bucketMaskToCapacity (b - 1), alloc := true }
+
+theorem newTable_infallible {env : Env} {b : Nat} {l : Layout} (w : World)
+    (hl : calculateLayoutFor cfg.bits cfg.W cfg.size (ctrlAlignOf cfg) b = some l) :
+    (env.allocOk w.ac = false → newTable cfg env b .infallible w = .abort) ∧
+    (env.allocOk w.ac = true → newTable cfg env b .infallible w =
+      .ok (.ok (freshTable cfg b), { w with ac := w.ac + 1, log := .alloc l.size l.align :: w.log })) := by
+  constructor
+  · intro ha
+    simp only [newTable, hl, doAlloc, ha, Bool.false_eq_true, if_false, allocErr]
+  · intro ha
+    simp only [newTable, hl, doAlloc, ha, if_true, freshTable]
+
+theorem ab_slot_replicate (t : Raw) (n : Nat) (hs : t.slots = Array.replicate n none) (j : Nat) :
+    ab_slot t j = none := by
+  simp only [ab_slot, hs, Array.getElem?_replicate]
+  split <;> rfl
+
+/-- Cloning every element of a valid allocated `src` into an empty block `dst0` with the same
+    geometry and control bytes (`clone_from_impl` after the control bytes were copied). -/
+theorem cloneInto_spec (hc : CfgOk cfg) (env : Env) {src dst0 : Raw} (w : World) (h : Inv cfg src)
+    (hal : src.alloc = true) (hm : dst0.mask = src.mask) (hct : dst0.ctrl = src.ctrl)
+    (hal0 : dst0.alloc = true) (hsz : dst0.slots.size = src.slots.size)
+    (hnone : ∀ j, ab_slot dst0 j = none) :
+    (∃ dst', Map.cloneLoop env src src.fullList dst0 w = .ok (dst', { w with cc := w.cc + src.items }) ∧
+      Inv cfg { dst' with items := src.items, gl := src.gl } ∧
+      dst'.elems = cloneList env w.cc src.elems ∧ dst'.elems.length = src.elems.length ∧
+      dst'.mask = src.mask ∧ dst'.ctrl = src.ctrl ∧ dst'.alloc = true) ∨
+    (∃ dst' n x, Map.cloneLoop env src src.fullList dst0 w =
+        .panic "clone" { w with cc := w.cc + n + 1, t := dst' } ∧
+      src.elems[n]? = some x ∧ env.clone (w.cc + n) x = none ∧
+      dst'.elems = cloneList env w.cc src.elems ∧ dst'.elems.length = n ∧
+      dst'.mask = src.mask ∧ dst'.ctrl = src.ctrl ∧ dst'.alloc = true ∧
+      dst'.slots.size = dst0.slots.size) := by
+  have hall := h.allocated hal
+  have hsrc : ∀ i ∈ src.fullList, ∃ e, ab_slot src i = some e := fun i hi => ⟨_, h.ab_full hc hi⟩
+  have hdst : ∀ i ∈ src.fullList, i < dst0.slots.size ∧ ab_slot dst0 i = none := by
+    intro i hi
+    refine ⟨?_, hnone i⟩
+    rw [hsz, hall.2.2.2.1]; exact ((mem_fullList _ _).1 hi).1
+  obtain ⟨n, dst', hn, hf, hmap, hres⟩ :=
+    cloneLoop_spec env src src.fullList dst0 w (ab_nodup_fullList src) hsrc hdst
+  have hsz0 : dst0.slots.size ≤ dst0.buckets := by
+    rw [hsz, hall.2.2.2.1]; simp only [Raw.buckets, hm]; exact Nat.le_refl _
+  have hel := ab_elems_filled hf hm hct hsz0 hnone
+  rw [hmap, ← ab_elems_map hc h] at hel
+  have hlen : dst'.elems.length = n := by
+    rw [ab_elems_filled hf hm hct hsz0 hnone, List.length_map, List.length_take]; omega
+  have hflen := fullList_length hc h
+  rcases hres with ⟨h1, h2⟩ | ⟨h1, ⟨i, hi1, hi2⟩, h3⟩
+  · left
+    rw [h1, hflen] at h2
+    have htake : src.fullList.take n = src.fullList := by rw [h1]; exact List.take_length
+    rw [htake] at hf
+    refine ⟨dst', h2, ?_, hel, by rw [hlen, h1, ab_elems_length hc h, hflen], hf.mask.trans hm,
+      hf.ctrl.trans hct, hf.alloc.trans hal0⟩
+    apply ab_inv_of_same_ctrl (t' := { dst' with items := src.items, gl := src.gl }) h hal
+      (hf.mask.trans hm) (hf.ctrl.trans hct) (hf.alloc.trans hal0) rfl rfl (hf.size.trans hsz)
+    intro j hj
+    have hj' : j < src.buckets := by
+      have : j < dst'.slots.size := hj
+      rw [hf.size, hsz, hall.2.2.2.1] at this; exact this
+    show (ab_slot dst' j).isSome ↔ isFull (dst'.ctrlAt j) = true
+    rw [ab_ctrlAt_congr (hf.ctrl.trans hct)]
+    by_cases hin : j ∈ src.fullList
+    · rw [hf.filled j hin]
+      simp [((mem_fullList _ _).1 hin).2]
+    · rw [hf.other j hin, hnone j]
+      have : ¬ isFull (src.ctrlAt j) = true := fun hfull => hin ((mem_fullList _ _).2 ⟨hj', hfull⟩)
+      simp [this]
+  · right
+    refine ⟨dst', n, ab_elem src i, h3, ?_, hi2, hel, hlen, hf.mask.trans hm, hf.ctrl.trans hct,
+      hf.alloc.trans hal0, hf.size⟩
+    rw [ab_elems_map hc h, List.getElem?_map, hi1]; rfl
+
+/-- **8a.** `RawTable::clone`: never faults. `.ok (nt, w')`: the source is untouched, `nt` is a valid
+    table with the same mask, control bytes and counters whose elements are the clones of the source's
+    elements position-wise (`cloneList`: same `k`, `v`; identities from the clone oracle's answer for
+    call `w.cc + position`), one `alloc` of the block. `.panic "clone"`: the source is untouched,
+    every clone made so far was dropped exactly once and the new block was freed (the log gained
+    `alloc L`, the drops, `free L` with the same layout). `.abort`: the allocator failed. -/
+theorem cloneTable_spec (hc : CfgOk cfg) (env : Env) (w : World) (h : TInvB cfg w.t) :
+    match Map.cloneTable cfg env w with
+    | .ok (nt, w') => TInvB cfg nt ∧ w'.t = w.t ∧ nt.mask = w.t.mask ∧ nt.ctrl = w.t.ctrl ∧
+        nt.items = w.t.items ∧ nt.gl = w.t.gl ∧ nt.alloc = w.t.alloc ∧
+        nt.elems = cloneList env w.cc w.t.elems ∧ nt.elems.length = w.t.elems.length ∧
+        w'.cc = w.cc + w.t.items ∧
+        w'.log = (if w.t.alloc = true then
+            [Ev.alloc (layoutOf cfg w.t.buckets).size (layoutOf cfg w.t.buckets).align] else []) ++ w.log
+    | .panic c w' => c = "clone" ∧ w'.t = w.t ∧ w.t.alloc = true ∧ ∃ n x, w.t.elems[n]? = some x ∧
+        env.clone (w.cc + n) x = none ∧ (cloneList env w.cc w.t.elems).length = n ∧
+        w'.cc = w.cc + n + 1 ∧
+        w'.log = Ev.free (layoutOf cfg w.t.buckets).size (layoutOf cfg w.t.buckets).align ::
+          (dropEvs cfg (cloneList env w.cc w.t.elems).reverse ++
+            Ev.alloc (layoutOf cfg w.t.buckets).size (layoutOf cfg w.t.buckets).align :: w.log)
+    | .abort => w.t.alloc = true ∧ env.allocOk w.ac = false
+    | .fault _ => False := by
+  have hse := h.1.isEmptySingleton_eq
+  cases hal : w.t.alloc with
+  | false =>
+    rw [hal] at hse
+    have hres : Map.cloneTable cfg env w = .ok (Raw.new cfg.W, w) := by
+      simp only [Map.cloneTable, hse, Bool.not_false, if_true]
+    rw [hres]
+    have hs : w.t.IsSingleton cfg := by
+      rcases h.1.geom with hs | ha
+      · exact hs
+      · rw [ha.1] at hal; cases hal
+    obtain ⟨s1, s2, s3, s4, s5, s6⟩ := hs
+    have hel : w.t.elems = [] := by rw [Raw.elems, s4]; rfl
+    refine ⟨⟨Raw.new_inv hc, Raw.new_layoutOk cfg⟩, rfl, s2.symm, s3.symm, s5.symm, s6.symm, rfl, ?_, ?_,
+      by rw [s5]; rfl, by simp⟩
+    · rw [hel]; rfl
+    · rw [hel]; rfl
+  | true =>
+    rw [hal] at hse
+    have hlo := h.2 hal
+    cases hl : calculateLayoutFor cfg.bits cfg.W cfg.size (ctrlAlignOf cfg) w.t.buckets with
+    | none => rw [hl] at hlo; cases hlo
+    | some l =>
+      have hlof := layoutOf_eq hl
+      obtain ⟨nt1, nt2⟩ := newTable_infallible (env := env) w hl
+      cases hao : env.allocOk w.ac with
+      | false =>
+        have hres : Map.cloneTable cfg env w = .abort := by
+          simp only [Map.cloneTable, hse, Bool.not_true, Bool.false_eq_true, if_false, nt1 hao]
+        rw [hres]
+        exact ⟨rfl, rfl⟩
+      | true =>
+        have hall := h.1.allocated hal
+        have hbm : w.t.buckets - 1 = w.t.mask := by simp [Raw.buckets]
+        generalize hw1 : ({ w with ac := w.ac + 1, log := .alloc l.size l.align :: w.log } : World) = w1 at nt2
+        have hinto := cloneInto_spec hc env (src := w.t)
+          (dst0 := { freshTable cfg w.t.buckets with ctrl := w.t.ctrl }) w1 h.1 hal hbm rfl rfl
+          (by simp [freshTable, hall.2.2.2.1])
+          (fun j => ab_slot_replicate _ w.t.buckets rfl j)
+        have hfi := fullIndices_spec hc h.1
+        rcases hinto with ⟨dst', c1, c2, c3, c4, c5, c6, c7⟩ | ⟨dst', n, x, c1, c2, c3, c4, c5, c6, c7, c8, c9⟩
+        · have hres : Map.cloneTable cfg env w =
+              .ok ({ dst' with items := w.t.items, gl := w.t.gl },
+                   { w1 with cc := w1.cc + w.t.items, t := w.t }) := by
+            simp only [Map.cloneTable, hse, Bool.not_true, Bool.false_eq_true, if_false, nt2 hao, hfi, c1]
+          rw [hres]
+          refine ⟨⟨c2, ?_⟩, rfl, c5, c6, rfl, rfl, c7, c3.trans (by rw [← hw1]), c4, by rw [← hw1], ?_⟩
+          · intro _
+            show (calculateLayoutFor cfg.bits cfg.W cfg.size (ctrlAlignOf cfg) (dst'.mask + 1)).isSome = true
+            rw [c5]; exact hlo
+          · rw [← hw1, hlof]; simp
+        · have hg := cloneGuardDrop_spec (cfg := cfg) dst' { w1 with cc := w1.cc + n + 1, t := dst' }
+          generalize hwg : Map.cloneGuardDrop cfg dst' { w1 with cc := w1.cc + n + 1, t := dst' } = wg at hg
+          have hfb := freeBuckets_ok h.2 hal { wg with t := w.t }
+          have hres : Map.cloneTable cfg env w = .panic "clone"
+              { wg with t := w.t, log := .free (layoutOf cfg w.t.buckets).size (layoutOf cfg w.t.buckets).align :: wg.log } := by
+            simp only [Map.cloneTable, hse, Bool.not_true, Bool.false_eq_true, if_false, nt2 hao, hfi, c1, hwg, hfb]
+          rw [hres]
+          refine ⟨rfl, rfl, rfl, n, x, c2, by rw [← hw1] at c3; exact c3, ?_, ?_, ?_⟩
+          · rw [c4, ← hw1] at c5; exact c5
+          · show wg.cc = _
+            rw [hg.2.2.2.1, ← hw1]
+          · show _ :: wg.log = _
+            rw [hg.2.log, c4, ← hw1, hlof]
+
+/-! #### `clone_from` -/
+
+def cfGuard (w : World) : World :=
+  { w with t := clearNoDrop { w.t with slots := Array.replicate w.t.slots.size none } }
+
+def cfStep2 (cfg : Cfg) (env : Env) (src : Raw) (w1 : World) : Res World :=
+  if w1.t.buckets ≠ src.buckets then
+    match newTable cfg env src.buckets .infallible w1 with
+    | .ok (.error _, _) => .fault "unreachable_unchecked in clone_from"
+    | .panic c w' => .panic c (cfGuard w')
+    | .abort => .abort
+    | .fault f => .fault f
+    | .ok (.ok fresh, w2) =>
+      let old := w2.t
+      let w3 := { w2 with t := fresh }
+      if old.isEmptySingleton then .ok w3 else freeBuckets cfg old.mask w3
+  else .ok w1
+
+def cfStep3 (cfg : Cfg) (env : Env) (src : Raw) (w4 : World) : Res World :=
+  let dst0 := { w4.t with ctrl := src.ctrl }
+  match fullIndices cfg src src.items with
+  | .error f => .fault f
+  | .ok idxs =>
+    match Map.cloneLoop env src idxs dst0 w4 with
+    | .ok (dst, w5) => .ok { w5 with t := { dst with items := src.items, gl := src.gl } }
+    | .panic c w' => .panic c (cfGuard (Map.cloneGuardDrop cfg w'.t w'))
+    | .abort => .abort
+    | .fault f => .fault f
+
+theorem cloneFrom_eq (env : Env) (src : Raw) (w : World) :
+    Map.cloneFrom cfg env src w =
+      if src.isEmptySingleton then dropInnerTable cfg env w.t { w with t := Raw.new cfg.W }
+      else
+        match dropElements cfg env w with
+        | .panic c w' => .panic c (cfGuard w')
+        | .abort => .abort
+        | .fault f => .fault f
+        | .ok (true, w1) => .panic "drop" (cfGuard w1)
+        | .ok (false, w1) =>
+          match cfStep2 cfg env src
+              { w1 with t := { w1.t with slots := Array.replicate w1.t.slots.size none } } with
+          | .ok w4 => cfStep3 cfg env src w4
+          | r => r := by
+  rfl
+theorem cfGuard_t {w : World} {src : Raw} (hm : w.t.mask = src.mask) (hct : w.t.ctrl = src.ctrl)
+    (hal : w.t.alloc = src.alloc) (hsz : w.t.slots.size = src.slots.size) :
+    (cfGuard w).t = src.cleared := ab_clearNoDrop_congr hm hct hal hsz
+
+theorem cfStep3_spec (hc : CfgOk cfg) (env : Env) {src : Raw} (w4 : World) (hs : TInvB cfg src)
+    (hal : src.alloc = true) (hm : w4.t.mask = src.mask) (hal4 : w4.t.alloc = true)
+    (hsz : w4.t.slots.size = src.slots.size) (hnone : ∀ j, ab_slot w4.t j = none) :
+    (∃ w', cfStep3 cfg env src w4 = .ok w' ∧ TInvB cfg w'.t ∧ w'.t.mask = src.mask ∧
+      w'.t.alloc = true ∧ w'.t.elems = cloneList env w4.cc src.elems ∧
+      w'.t.elems.length = src.elems.length ∧ w'.log = w4.log ∧ w'.cc = w4.cc + src.items) ∨
+    (∃ w' n x, cfStep3 cfg env src w4 = .panic "clone" w' ∧ w'.t = src.cleared ∧
+      src.elems[n]? = some x ∧ env.clone (w4.cc + n) x = none ∧
+      (cloneList env w4.cc src.elems).length = n ∧
+      w'.log = dropEvs cfg (cloneList env w4.cc src.elems).reverse ++ w4.log ∧ w'.cc = w4.cc + n + 1) := by
+  have hfi := fullIndices_spec hc hs.1
+  have hinto := cloneInto_spec hc env (src := src) (dst0 := { w4.t with ctrl := src.ctrl }) w4 hs.1 hal
+    hm rfl hal4 hsz hnone
+  rcases hinto with ⟨dst', c1, c2, c3, c4, c5, c6, c7⟩ | ⟨dst', n, x, c1, c2, c3, c4, c5, c6, c7, c8, c9⟩
+  · left
+    refine ⟨{ w4 with cc := w4.cc + src.items, t := { dst' with items := src.items, gl := src.gl } }, ?_,
+      ⟨c2, ?_⟩, c5, c7, c3, c4, rfl, rfl⟩
+    · simp only [cfStep3, hfi, c1]
+    · intro _
+      show (calculateLayoutFor cfg.bits cfg.W cfg.size (ctrlAlignOf cfg) (dst'.mask + 1)).isSome = true
+      rw [c5]; exact hs.2 hal
+  · right
+    have hg := cloneGuardDrop_spec (cfg := cfg) dst' { w4 with cc := w4.cc + n + 1, t := dst' }
+    refine ⟨cfGuard (Map.cloneGuardDrop cfg dst' { w4 with cc := w4.cc + n + 1, t := dst' }), n, x, ?_, ?_,
+      c2, c3, by rw [← c4]; exact c5, ?_, ?_⟩
+    · simp only [cfStep3, hfi, c1]
+    · apply cfGuard_t
+      · rw [hg.1]; exact c6
+      · rw [hg.1]; exact c7
+      · rw [hg.1]; exact c8.trans hal.symm
+      · rw [hg.1]; exact c9.trans hsz
+    · show (Map.cloneGuardDrop cfg dst' _).log = _
+      rw [hg.2.log, c4]
+    · show (Map.cloneGuardDrop cfg dst' _).cc = _
+      rw [hg.2.2.2.1]
+
+/-- Step 2 of `clone_from`: make the target block have the source's bucket count. -/
+theorem cfStep2_spec (env : Env) {src : Raw} (v : World) (hs : TInvB cfg src) (hal : src.alloc = true)
+    (hse : v.t.isEmptySingleton = !v.t.alloc) (hlo : v.t.LayoutOk cfg)
+    (heq : v.t.buckets = src.buckets → v.t.alloc = true ∧ v.t.slots.size = src.slots.size)
+    (hsrcsz : src.slots.size = src.buckets)
+    (hnone : ∀ j, ab_slot v.t j = none) :
+    (∃ w4, cfStep2 cfg env src v = .ok w4 ∧ w4.t.mask = src.mask ∧ w4.t.alloc = true ∧
+      w4.t.slots.size = src.slots.size ∧ (∀ j, ab_slot w4.t j = none) ∧ w4.cc = v.cc ∧
+      w4.log = (if v.t.buckets ≠ src.buckets then
+          (if v.t.alloc = true then
+            [Ev.free (layoutOf cfg v.t.buckets).size (layoutOf cfg v.t.buckets).align] else []) ++
+          [Ev.alloc (layoutOf cfg src.buckets).size (layoutOf cfg src.buckets).align] else []) ++ v.log) ∨
+    (cfStep2 cfg env src v = .abort ∧ v.t.buckets ≠ src.buckets ∧ env.allocOk v.ac = false) := by
+  by_cases hb : v.t.buckets = src.buckets
+  · left
+    obtain ⟨a1, a2⟩ := heq hb
+    refine ⟨v, by simp only [cfStep2, hb, ne_eq, not_true_eq_false, if_false], ?_, a1, a2, hnone, rfl,
+      by simp [hb]⟩
+    simpa [Raw.buckets] using hb
+  · have hlo' := hs.2 hal
+    cases hl : calculateLayoutFor cfg.bits cfg.W cfg.size (ctrlAlignOf cfg) src.buckets with
+    | none => rw [hl] at hlo'; cases hlo'
+    | some l =>
+      have hlof := layoutOf_eq hl
+      obtain ⟨nt1, nt2⟩ := newTable_infallible (env := env) v hl
+      cases hao : env.allocOk v.ac with
+      | false =>
+        right
+        exact ⟨by simp only [cfStep2, ne_eq, hb, not_false_eq_true, if_true, nt1 hao], hb, rfl⟩
+      | true =>
+        left
+        have hfresh : (freshTable cfg src.buckets).mask = src.mask := by simp [freshTable, Raw.buckets]
+        have hfsz : (freshTable cfg src.buckets).slots.size = src.slots.size := by
+          simp [freshTable, hsrcsz]
+        cases hva : v.t.alloc with
+        | false =>
+          rw [hva] at hse
+          refine ⟨{ v with ac := v.ac + 1, log := .alloc l.size l.align :: v.log, t := freshTable cfg src.buckets },
+            ?_, hfresh, rfl, hfsz, fun j => ab_slot_replicate _ src.buckets rfl j, rfl, ?_⟩
+          · simp only [cfStep2, ne_eq, hb, not_false_eq_true, if_true, nt2 hao, hse, Bool.not_false]
+          · simp [hb, hlof]
+        | true =>
+          rw [hva] at hse
+          have hfb := freeBuckets_ok hlo hva
+            { v with ac := v.ac + 1, log := .alloc l.size l.align :: v.log, t := freshTable cfg src.buckets }
+          refine ⟨{ v with ac := v.ac + 1, t := freshTable cfg src.buckets,
+                           log := .free (layoutOf cfg v.t.buckets).size (layoutOf cfg v.t.buckets).align ::
+                             .alloc l.size l.align :: v.log },
+            ?_, hfresh, rfl, hfsz, fun j => ab_slot_replicate _ src.buckets rfl j, rfl, ?_⟩
+          · simp only [cfStep2, ne_eq, hb, not_false_eq_true, if_true, nt2 hao, hse, Bool.not_true,
+              Bool.false_eq_true, if_false, hfb]
+          · simp [hb, hlof]
+/-- Allocator traffic of `clone_from`: when the bucket counts differ the target's old block is freed
+    (if it was allocated) and a block with the source's layout is allocated (if the source is
+    allocated); listed newest first. -/
+def cfBlockEvs (cfg : Cfg) (t src : Raw) : List Ev :=
+  if t.buckets ≠ src.buckets then
+    (if t.alloc = true then [Ev.free (layoutOf cfg t.buckets).size (layoutOf cfg t.buckets).align] else []) ++
+    (if src.alloc = true then
+      [Ev.alloc (layoutOf cfg src.buckets).size (layoutOf cfg src.buckets).align] else [])
+  else []
+
+/-- Postcondition of `clone_from` (see `cloneFrom_spec`). -/
+def CloneFromPost (cfg : Cfg) (env : Env) (src : Raw) (w : World) : Res World → Prop
+  | .ok w' => TInvB cfg w'.t ∧ w'.t.mask = src.mask ∧ w'.t.alloc = src.alloc ∧
+      w'.t.elems = cloneList env w.cc src.elems ∧ w'.t.elems.length = src.elems.length ∧
+      w'.cc = w.cc + src.items ∧
+      w'.log = cfBlockEvs cfg w.t src ++ (dropEvs cfg w.t.elems.reverse ++ w.log)
+  | .panic c w' => TInvB cfg w'.t ∧ w'.t.elems = [] ∧ w'.t.items = 0 ∧
+      ((c = "drop" ∧ ∃ ds e rest, w.t.elems = ds ++ e :: rest ∧
+          w'.log = dropEvs cfg (ds ++ [e]).reverse ++ w.log ∧
+          env.dropPanics (w.dc + ds.length) e = true) ∨
+       (c = "clone" ∧ src.alloc = true ∧ ∃ n x, src.elems[n]? = some x ∧
+          env.clone (w.cc + n) x = none ∧ (cloneList env w.cc src.elems).length = n ∧
+          w'.log = dropEvs cfg (cloneList env w.cc src.elems).reverse ++
+            (cfBlockEvs cfg w.t src ++ (dropEvs cfg w.t.elems.reverse ++ w.log))))
+  | .abort => src.alloc = true ∧ w.t.buckets ≠ src.buckets
+  | .fault _ => False
+
+theorem cloneFrom_post_singleton (hc : CfgOk cfg) (env : Env) (src : Raw) (w : World)
+    (h : TInvB cfg w.t) (hs : TInvB cfg src) (hal : src.alloc = false) :
+    CloneFromPost cfg env src w (Map.cloneFrom cfg env src w) := by
+  have hse := hs.1.isEmptySingleton_eq
+  rw [hal] at hse
+  have hsing : src.IsSingleton cfg := by
+    rcases hs.1.geom with hx | ha
+    · exact hx
+    · rw [ha.1] at hal; cases hal
+  obtain ⟨_, s2, _, s4, s5, _⟩ := hsing
+  have hel : src.elems = [] := by rw [Raw.elems, s4]; rfl
+  have hblk : cfBlockEvs cfg w.t src =
+      (if w.t.alloc = true then
+        [Ev.free (layoutOf cfg w.t.buckets).size (layoutOf cfg w.t.buckets).align] else []) := by
+    have hsb : src.buckets = 1 := by simp [Raw.buckets, s2]
+    rcases h.1.geom with hx | ha
+    · have : w.t.buckets = 1 := by simp [Raw.buckets, hx.2.1]
+      simp [cfBlockEvs, hsb, this, hx.1]
+    · obtain ⟨k, hk, hb, _⟩ := IsAllocated.mask_eq ha
+      have : 2 ^ 2 ≤ 2 ^ k := Nat.pow_le_pow_right (by decide) hk
+      have hne : w.t.buckets ≠ 1 := by omega
+      simp [cfBlockEvs, hsb, hne, ha.1, hal]
+  have hd := dropInnerTable_spec hc env w.t { w with t := Raw.new cfg.W } h
+  rw [cloneFrom_eq, hse]
+  simp only [Bool.not_false, if_true]
+  generalize dropInnerTable cfg env w.t { w with t := Raw.new cfg.W } = r at hd ⊢
+  match r, hd with
+  | .ok w', ⟨a1, a2, w1, a3, a4⟩ =>
+    have ht : w'.t = Raw.new cfg.W := a1
+    refine ⟨by rw [ht]; exact ⟨Raw.new_inv hc, Raw.new_layoutOk cfg⟩, by rw [ht, s2]; rfl,
+      by rw [ht, hal]; rfl, by rw [ht, hel]; rfl, by rw [ht, hel]; rfl, ?_, ?_⟩
+    · rw [a4, s5]; exact a3.2.2.1
+    · rw [a2, hblk]; simp
+  | .panic c w', ⟨a1, a2, a3, a4, ds, e, rest, b1, b2, b3⟩ =>
+    have ht : w'.t = Raw.new cfg.W := a2
+    exact ⟨by rw [ht]; exact ⟨Raw.new_inv hc, Raw.new_layoutOk cfg⟩, by rw [ht]; rfl, by rw [ht]; rfl,
+      Or.inl ⟨a1, ds, e, rest, b1, b2.log, b3⟩⟩
+  | .abort, hd => exact hd.elim
+  | .fault _, hd => exact hd.elim
+
+theorem cloneFrom_post_alloc (hc : CfgOk cfg) (env : Env) (src : Raw) (w : World)
+    (h : TInvB cfg w.t) (hs : TInvB cfg src) (hal : src.alloc = true) :
+    CloneFromPost cfg env src w (Map.cloneFrom cfg env src w) := by
+  have hse := hs.1.isEmptySingleton_eq
+  rw [hal] at hse
+  have hsall := hs.1.allocated hal
+  obtain ⟨p, w1, ds, rest, h1, a1, a2, a3, a4, a5, a6, a7, a8, a9, a10, a11⟩ :=
+    dropElements_spec hc env w h.1
+  obtain ⟨c1, c2, c3, _⟩ := ab_cleared_facts hc h
+  rw [cloneFrom_eq, hse, h1]
+  simp only [Bool.not_true, Bool.false_eq_true, if_false]
+  cases p with
+  | true =>
+    simp only
+    have ht : (cfGuard w1).t = w.t.cleared := cfGuard_t a1 a2 a5 a6
+    obtain ⟨_, ds', e, hds, hpan⟩ := a11 rfl
+    refine ⟨by rw [ht]; exact c1, by rw [ht]; exact c3, by rw [ht]; exact c2,
+      Or.inl ⟨rfl, ds', e, rest, by rw [a7, hds]; simp, ?_, hpan⟩⟩
+    show w1.log = _
+    rw [a9.log, hds]
+  | false =>
+    simp only
+    have hds : ds = w.t.elems := by
+      have := (a10 rfl).1
+      rw [this, List.append_nil] at a7
+      exact a7.symm
+    rw [hds] at a9
+    generalize hv : ({ w1 with t := { w1.t with slots := Array.replicate w1.t.slots.size none } } : World) = v
+    have hvm : v.t.mask = w.t.mask := by rw [← hv]; exact a1
+    have hva : v.t.alloc = w.t.alloc := by rw [← hv]; exact a5
+    have hvb : v.t.buckets = w.t.buckets := by simp only [Raw.buckets, hvm]
+    have hvsz : v.t.slots.size = w.t.slots.size := by rw [← hv]; simpa using a6
+    have hvlog : v.log = dropEvs cfg w.t.elems.reverse ++ w.log := by rw [← hv]; exact a9.log
+    have hvcc : v.cc = w.cc := by rw [← hv]; exact a9.2.2.1
+    have hvse : v.t.isEmptySingleton = !v.t.alloc := by
+      have := h.1.isEmptySingleton_eq
+      simp only [Raw.isEmptySingleton] at this ⊢
+      rw [hvm, hva]; exact this
+    have hstep2 := cfStep2_spec (cfg := cfg) env v hs hal hvse (h.2.of_eq hvm hva)
+      (by
+        intro hb
+        rw [hvb] at hb
+        have hmm : w.t.mask = src.mask := by simpa [Raw.buckets] using hb
+        have hwa : w.t.alloc = true := by
+          have h1 := h.1.isEmptySingleton_eq
+          simp only [Raw.isEmptySingleton] at h1 hse
+          rw [hmm, hse] at h1
+          cases hx : w.t.alloc with
+          | true => rfl
+          | false => rw [hx] at h1; cases h1
+        refine ⟨hva.trans hwa, ?_⟩
+        rw [hvsz, (h.1.allocated hwa).2.2.2.1, hsall.2.2.2.1]; exact hb)
+      hsall.2.2.2.1
+      (fun j => by rw [← hv]; exact ab_slot_replicate _ _ rfl j)
+    rcases hstep2 with ⟨w4, s1, s2, s3, s4, s5, s6, s7⟩ | ⟨s1, s2, _⟩
+    · rw [s1]
+      simp only
+      have hblk : w4.log = cfBlockEvs cfg w.t src ++ (dropEvs cfg w.t.elems.reverse ++ w.log) := by
+        rw [s7, hvb, hva, hvlog]
+        simp [cfBlockEvs, hal]
+      rcases cfStep3_spec hc env w4 hs hal s2 s3 s4 s5 with
+        ⟨w', r1, r2, r3, r4, r5, r6, r7, r8⟩ | ⟨w', n, x, r1, r2, r3, r4, r5, r6, r7⟩
+      · rw [r1]
+        exact ⟨r2, r3, by rw [r4, hal], by rw [r5, s6, hvcc], r6, by rw [r8, s6, hvcc], by rw [r7, hblk]⟩
+      · rw [r1]
+        obtain ⟨d1, d2, d3, _⟩ := ab_cleared_facts hc hs
+        rw [s6, hvcc] at r4 r5 r6
+        exact ⟨by rw [r2]; exact d1, by rw [r2]; exact d3, by rw [r2]; exact d2,
+          Or.inr ⟨rfl, hal, n, x, r3, r4, r5, by rw [r6, hblk]⟩⟩
+    · rw [s1]
+      exact ⟨hal, by rw [← hvb]; exact s2⟩
+
+/-- **8b.** `RawTable::clone_from` (target `w.t` in any valid state, source `src` valid): never faults.
+    `.ok`: the target is a valid table with the source's mask whose elements are the clones of the
+    source's elements position-wise (`cloneList`, clone-oracle calls `w.cc + position`); the target's
+    old elements were dropped exactly once, in bucket order; the old block was freed iff the bucket
+    counts differ and it was allocated (`cfBlockEvs`). `.panic "drop"` (a destructor of an old element
+    panicked) / `.panic "clone"` (`Clone` panicked; the clones made so far are dropped exactly once):
+    the guard leaves a valid EMPTY table, and the log shows that no element is dropped twice.
+    `.abort`: the allocator refused the new block. -/
+theorem cloneFrom_spec (hc : CfgOk cfg) (env : Env) (src : Raw) (w : World) (h : TInvB cfg w.t)
+    (hs : TInvB cfg src) :
+    match Map.cloneFrom cfg env src w with
+    | .ok w' => TInvB cfg w'.t ∧ w'.t.mask = src.mask ∧ w'.t.alloc = src.alloc ∧
+        w'.t.elems = cloneList env w.cc src.elems ∧ w'.t.elems.length = src.elems.length ∧
+        w'.cc = w.cc + src.items ∧
+        w'.log = cfBlockEvs cfg w.t src ++ (dropEvs cfg w.t.elems.reverse ++ w.log)
+    | .panic c w' => TInvB cfg w'.t ∧ w'.t.elems = [] ∧ w'.t.items = 0 ∧
+        ((c = "drop" ∧ ∃ ds e rest, w.t.elems = ds ++ e :: rest ∧
+            w'.log = dropEvs cfg (ds ++ [e]).reverse ++ w.log ∧
+            env.dropPanics (w.dc + ds.length) e = true) ∨
+         (c = "clone" ∧ src.alloc = true ∧ ∃ n x, src.elems[n]? = some x ∧
+            env.clone (w.cc + n) x = none ∧ (cloneList env w.cc src.elems).length = n ∧
+            w'.log = dropEvs cfg (cloneList env w.cc src.elems).reverse ++
+              (cfBlockEvs cfg w.t src ++ (dropEvs cfg w.t.elems.reverse ++ w.log))))
+    | .abort => src.alloc = true ∧ w.t.buckets ≠ src.buckets
+    | .fault _ => False := by
+  have hpost : CloneFromPost cfg env src w (Map.cloneFrom cfg env src w) := by
+    cases hal : src.alloc with
+    | false => exact cloneFrom_post_singleton hc env src w h hs hal
+    | true => exact cloneFrom_post_alloc hc env src w h hs hal
+  generalize Map.cloneFrom cfg env src w = r at hpost ⊢
+  match r, hpost with
+  | .ok w', hpost => exact hpost
+  | .panic c w', hpost => exact hpost
+  | .abort, hpost => exact hpost
+  | .fault _, hpost => exact hpost
+
 end Hb
